@@ -117,6 +117,18 @@ fn compound(src: &mut Src, st: &mut Stats, _env: &Env) -> CaseResult {
             return Ok(());
         }
     };
+    // for pipes: often a left side that ENDS in a bare projection over mixed data
+    let l = if kind == 0 && src.chance(90) {
+        match src.below(5) {
+            0 => format!("({})[*]", l),
+            1 => format!("({})[]", l),
+            2 => format!("({})[1:]", l),
+            3 => "`[1, null, \"x\", [2, null], {\"a\": null}]`[*]".to_string(),
+            _ => "`[[1, null], null, [\"x\"]]`[]".to_string(),
+        }
+    } else {
+        l
+    };
     let lv = run(&l, &dt).map_err(|m| harness_err(m, &l, &dt))?;
     let lj = match &lv {
         Out::Val(j) if !j.contains_expref() => Some(j.clone()),
@@ -127,10 +139,26 @@ fn compound(src: &mut Src, st: &mut Stats, _env: &Env) -> CaseResult {
     let compound_text: String;
     match kind {
         0 => {
-            // pipe
-            let r = match part(src, st, lj.as_ref(), 3) {
-                Some(x) => x,
-                None => return Ok(()),
+            // pipe; the right side is often a projection that calls a function on each element
+            let r = if src.chance(80) {
+                src.pick(&[
+                    "[*].type(@)",
+                    "[*].not_null(@, 'x')",
+                    "[?type(@) == 'null']",
+                    "[?not_null(@, `true`)]",
+                    "[].to_array(@)",
+                    "[*].[@, type(@)]",
+                    "[*].to_array(@)[0]",
+                    "[?type(@) != 'number'].type(@)",
+                    "[::2].type(@)",
+                    "*.type(@)",
+                ])
+                .to_string()
+            } else {
+                match part(src, st, lj.as_ref(), 3) {
+                    Some(x) => x,
+                    None => return Ok(()),
+                }
             };
             let c = format!("({}) | ({})", l, r);
             let got = run(&c, &dt).map_err(|m| harness_err(m, &c, &dt))?;
@@ -390,6 +418,94 @@ fn compound(src: &mut Src, st: &mut Stats, _env: &Env) -> CaseResult {
     Ok(())
 }
 
+/// Projections over large arrays (1000..5000 elements): the result is still the
+/// per-element results in order, however many elements there are.
+fn scale(env: &Env, st: &mut Stats) -> Vec<Failure> {
+    let sizes: &[usize] = if env.tier == Tier::Thorough { &[255, 256, 257, 1000, 1023, 1024, 1025, 1100, 2047, 2048, 2049, 4096, 5000, 10000] } else { &[256, 1000, 1023, 1024, 1025, 1100, 2048, 5000] };
+    let rhs_forms = ["a[*]", "a.*", "a[1:]", "[a[*], b[*]]", "b[?@ > `1`]", "length(b)", "b[*][0]", "c.a[*]", "not_null(a[*], b[0])", "a[*].x", "b[*].to_string(@)"];
+    let mut fails = vec![];
+    for &n in sizes {
+        // elements: mostly objects whose `a` is NOT an array, some arrays, some nulls
+        let elems: Vec<serde_json::Value> = (0..n)
+            .map(|i| match i % 7 {
+                3 => json!({"a": [i, i + 1], "b": [i % 3, 2, 5], "c": {"a": [1]}}),
+                5 => json!(null),
+                6 => json!([i]),
+                _ => json!({"a": i, "b": [i % 4], "c": {"a": i}}),
+            })
+            .collect();
+        let doc = serde_json::Value::Array(elems.clone()).to_string();
+        for rhs in rhs_forms {
+            st.eval();
+            let compound = format!("[*].{}", if rhs.starts_with('[') { format!("not_null({})", rhs) } else { rhs.to_string() });
+            let got = match run(&compound, &doc) {
+                Ok(o) => o,
+                Err(m) => {
+                    fails.push(Failure::new("scale", "unexpected-outcome", m, json!({"expression": compound, "elements": n})));
+                    continue;
+                }
+            };
+            // per element, separate searches (memoised by element shape would hide nothing: run them all)
+            let mut want_items = vec![];
+            let mut want_err: Option<String> = None;
+            for e in &elems {
+                match run(rhs, &e.to_string()) {
+                    Ok(Out::Val(j)) => {
+                        if !j.is_null() {
+                            want_items.push(j);
+                        }
+                    }
+                    Ok(Out::Err(c)) => {
+                        want_err = Some(c);
+                        break;
+                    }
+                    Err(m) => {
+                        fails.push(Failure::new("scale", "unexpected-outcome", m, json!({"expression": rhs})));
+                        return fails;
+                    }
+                }
+            }
+            let want = match want_err {
+                Some(c) => Out::Err(c),
+                None => Out::Val(J::Arr(want_items)),
+            };
+            if !same(&got, &want) {
+                let brief = |o: &Out| match o {
+                    Out::Val(J::Arr(a)) => format!("an array of {} results", a.len()),
+                    other => show(other),
+                };
+                fails.push(Failure::new(
+                    "scale",
+                    "projection-not-compositional",
+                    format!("{} over {} elements gives {} but element by element it is {}", compound, n, brief(&got), brief(&want)),
+                    json!({"expression": compound, "rhs": rhs, "elements": n}),
+                ));
+                if fails.len() > 10 {
+                    return fails;
+                }
+            } else {
+                st.nontrivial(&format!("{}|{}", compound, n));
+            }
+        }
+    }
+    st.sample(|| json!({"expression": "[*].a[*]", "elements": 1024}));
+    fails
+}
+
+fn replay_scale(case: &serde_json::Value, env: &Env) -> CaseResult {
+    // re-run the whole (small) table and report the entry for this expression / size
+    let mut st = Stats::new();
+    let want_expr = case["expression"].as_str().unwrap_or("");
+    let want_n = case["elements"].as_u64().unwrap_or(0);
+    let thorough = Env { property: env.property, tier: Tier::Thorough, seed: env.seed, known: env.known.clone(), strict: env.strict };
+    for f in scale(&thorough, &mut st) {
+        if f.case["expression"].as_str() == Some(want_expr) && f.case["elements"].as_u64() == Some(want_n) {
+            return Err(f);
+        }
+    }
+    Ok(())
+}
+
 pub fn property() -> Property {
     Property {
         id: "C11",
@@ -400,6 +516,9 @@ pub fn property() -> Property {
             "when several parts fail, only the presence of an error is compared".into(),
         ],
         minimise: None,
-        subs: vec![Sub::Bytes(BytesSub { name: "compound", f: compound, max_len: 1500, quick: Budget { threads: 8, cases: 6000 }, thorough: Budget { threads: 16, cases: 200_000 }, keep_unreproducible: false })],
+        subs: vec![
+            Sub::Custom(CustomSub { name: "scale", run: scale, replay: replay_scale }),
+            Sub::Bytes(BytesSub { name: "compound", f: compound, max_len: 1500, quick: Budget { threads: 8, cases: 6000 }, thorough: Budget { threads: 16, cases: 200_000 }, keep_unreproducible: false }),
+        ],
     }
 }
